@@ -27,6 +27,11 @@ LEVEL = "exploration"
 ASSUMPTIONS = [
     "sample values: one generic tensor per (shape, dtype) from mc/sig.py (integers: rounded "
     "40x scaled values); structure (shapes, axes, parameters) is what is enumerated",
+    "wide dtypes (deltas_wide, stack): int64 / uint64 tensors hold only odd integers of magnitude 2**53..2**61 "
+    "(uint64: 2**63 +- that), long double tensors only values with more than 53 significant bits, i.e. no "
+    "entry survives a round trip through float64; the filtered blocks of these are compared with a relative "
+    "tolerance (the property fixes the recursion, not its precision) and, for uint64, not at all where the "
+    "filter output is negative (no value of the dtype)",
     "padding modes are the named numpy.pad modes edge/constant/reflect/symmetric/wrap/mean/"
     "maximum/minimum/linear_ramp with their default or one explicit keyword; callables are "
     "not enumerated",
@@ -45,6 +50,8 @@ ASSUMPTIONS = [
 ]
 
 DTYPES = ("float64", "float32", "int32", "int16")
+# dtypes that hold values a float64 cannot: every entry of their tensors is such a value (see _data)
+DTYPES_WIDE = ("int64", "uint64", "longdouble")
 MODES_FULL = ("edge", "constant", "reflect", "wrap", "symmetric", "constant:1.5", "mean",
               "maximum", "minimum", "linear_ramp", "linear_ramp:2")
 MODES_QUICK = ("edge", "constant", "reflect", "wrap", "symmetric", "constant:1.5", "mean",
@@ -62,6 +69,8 @@ def _mode(m):
 
 
 def _kindof(dtype):
+    if dtype in DTYPES_WIDE:
+        return dtype + "_wide"
     return "int" if dtype.startswith("int") else dtype
 
 
@@ -70,6 +79,27 @@ def _data(seed, shape, dtype, variant=0):
     shape and dtype (call histories: a later call on the same shape must not see the same data)"""
     n = int(np.prod(shape))
     x = sig.signal(seed, n, offset=0 if not variant else 60 + variant).reshape(shape)
+    if dtype in ("int64", "uint64"):
+        # odd integers of magnitude 2**53 .. 2**61 (uint64: around 2**63): none of them is a float64, all
+        # of them (and every regression-filtered copy: the filter weights have absolute sum <= 1) are
+        # inside the dtype
+        mag = np.round(np.abs(x) * 2.0 ** 58).astype(np.int64) + (1 << 53)
+        v = np.where(x < 0, -1, 1).astype(np.int64) * (mag | 1)
+        if v.size and int(np.abs(v).max()) >= 1 << 61:
+            raise core.HarnessError("wide integer alphabet left +-2**61")
+        if dtype == "uint64":
+            v = v.astype(np.uint64) + np.uint64(1 << 63)
+        v = v.astype(dtype)
+        if v.size and np.any(v.astype(np.float64).astype(dtype) == v):
+            raise core.HarnessError("wide integer alphabet holds a value that is a float64")
+        return v
+    if dtype == "longdouble":
+        # more significant bits than a float64 has, where the platform's long double has them
+        v = x.astype(np.longdouble)
+        v = v + v * np.longdouble(2.0 ** -57) + np.longdouble(2.0 ** -60)
+        if np.finfo(np.longdouble).nmant > 52 and v.size and np.any(v.astype(np.float64) == v):
+            raise core.HarnessError("long double alphabet holds a value that is a float64")
+        return v
     if dtype.startswith("int"):
         x = np.round(x * 40.0)
     return x.astype(dtype)
@@ -97,6 +127,20 @@ def _close(got, f64, dtype):
     Returns a boolean array of acceptable entries."""
     if dtype == "float64":
         return np.abs(got - f64) <= 1e-12 * (1.0 + np.abs(f64))
+    if dtype == "longdouble":
+        return np.abs(got.astype(np.float64) - f64) <= 1e-12 * (1.0 + np.abs(f64))
+    if dtype in ("int64", "uint64"):
+        # values of 2**53 .. 2**63 filtered in float64: a relative tolerance on the largest magnitude
+        # involved (the result holds the input block) plus one unit for the cast.  An unsigned dtype has no
+        # value for a negative filter output (and none above its maximum): nothing is demanded there
+        scale = float(np.max(np.abs(f64))) if f64.size else 0.0
+        tol = 2.0 + 1e-12 * scale
+        ok = np.abs(got.astype(np.float64) - f64) <= tol
+        if dtype == "uint64":
+            # (a filter output within the tolerance of zero may be negative in the implementation's order of
+            # summation)
+            ok = ok | (f64 < 2.0 * tol) | (f64 > 1.8e19)
+        return ok
     if dtype == "float32":
         w = f64.astype(np.float32).astype(np.float64)
         return np.abs(got.astype(np.float64) - w) <= 4e-7 * np.abs(w) + 1e-12
@@ -147,12 +191,19 @@ def _deltas_one3(x, pristine, dtype, axis, window, mode, nd, concat, ta, in_plac
                                    "result dtype %s, input dtype %s" % (got.dtype, x.dtype), case))
     elif got.size:
         ok = _close(got, f64, dtype)
-        # the leading block is the input itself: exact
+        # the leading block is the input itself: exact in the input's own dtype (never via float64)
         first = ref.deltas_layout([np.ones(x.shape, bool)] + [np.zeros(x.shape, bool)] * nd, ta, concat)
-        exact_in = got[first] == f64[first].astype(dtype)
+        xin = ref.deltas_layout([np.array(pristine)] + [np.zeros(x.shape, x.dtype)] * nd, ta, concat)
+        if xin.dtype != x.dtype:
+            raise core.HarnessError("layout changed the dtype")
+        exact_in = got[first] == xin[first]
         if not np.all(exact_in):
             viol.append(core.violation(dict(tags, what="input_block"),
-                                       "the leading block of the result is not the input", case))
+                                       "the leading block of the result is not the input: %d of %d entries "
+                                       "differ, e.g. input %r, result %r" % (
+                                           int((~exact_in).sum()), exact_in.size,
+                                           xin[first][~exact_in][0].item(), got[first][~exact_in][0].item()),
+                                       case))
         elif not np.all(ok):
             bad = np.argwhere(~ok)[0]
             viol.append(core.violation(
@@ -170,7 +221,11 @@ def _target_axes(ndim, concat):
     return list(range(-ndim, ndim)) if concat else list(range(-(ndim + 1), ndim + 1))
 
 
-def _eval_deltas(pt, seed, tier):
+# inner lattice of the wide dtypes: (context window, pad mode, num_deltas values); every target_axis
+WIDE_COMBOS = [(2, "edge", (0, 1, 2, 3)), (1, "reflect", (0, 2)), (3, "constant:1.5", (1,))]
+
+
+def _eval_deltas(pt, seed, tier, wide=False):
     shape, dtype = tuple(pt[0]), pt[1]
     ndim = len(shape)
     x = sig.ro(_data(seed, shape, dtype))
@@ -189,6 +244,8 @@ def _eval_deltas(pt, seed, tier):
             skipped += 1
         elif empty:
             combos = [(2, "edge", (0, 1, 2, 3)), (1, "reflect", (0, 2))]
+        elif wide:
+            combos = WIDE_COMBOS
         elif axis < 0 and tier == "quick":
             combos = [(2, "edge", (0, 1, 2, 3)), (3, "reflect", (0, 1, 2, 3))]
         else:
@@ -200,6 +257,7 @@ def _eval_deltas(pt, seed, tier):
             # they were computed (window x pad_mode), so only two (window, mode) pairs carry the full
             # target_axis range; the others get the first, the last and the most negative position
             full_layout = tier != "quick" or (window, mode) in ((2, "edge"), (1, "reflect"), (3, "reflect"))
+            full_layout = full_layout or wide
             for nd in nds:
                 for concat in (True, False):
                     tas = _target_axes(ndim, concat)
@@ -737,7 +795,8 @@ def _cost(pt):
 def subchecks(tier, seed):
     # most expensive points first (better balance over the workers); the set is unchanged
     dpts = sorted([(s, d) for s in _shapes(tier) for d in DTYPES], key=_cost)
-    spts = sorted([(s, d) for s in _shapes(tier, 2) for d in DTYPES], key=_cost)
+    spts = sorted([(s, d) for s in _shapes(tier, 2) for d in DTYPES + DTYPES_WIDE], key=_cost)
+    wpts = sorted([(s, d) for s in _shapes(tier) for d in DTYPES_WIDE], key=_cost)
     hpts = _history_configs(tier)
     modes = MODES_QUICK if tier == "quick" else MODES_FULL
     return [
@@ -757,13 +816,29 @@ def subchecks(tier, seed):
                               "target_axis in {most negative, 0, -1}"),
             replay=lambda case: _replay_deltas(case, seed), chunk=1),
         core.SubCheck(
+            "deltas_wide", wpts, lambda p: _eval_deltas(p, seed, tier, wide=True),
+            "real Deltas.apply at every (shape, dtype) for the dtypes that hold values NO float64 holds - int64 "
+            "(odd values of magnitude 2**53..2**61), uint64 (odd values around 2**63), long double (more than "
+            "53 significant bits) - every entry of the tensor being such a value; inner loop axis x (window, "
+            "pad_mode, num_deltas) in %r x concatenate x every target_axis x in_place: the leading block of the "
+            "result IS the input (equal entry by entry in the input's own dtype, num_deltas 0 included), result "
+            "dtype = input dtype, documented shape, input untouched; the filtered blocks against the Kaldi "
+            "recursion with a relative tolerance of 1e-12 on the largest magnitude (uint64: only where the "
+            "filter output is a positive value of the dtype); non-trivial = num_deltas > 0 and a non-empty "
+            "tensor" % (WIDE_COMBOS,),
+            axes=dict(shape="all shapes with <= 3 dims, extents in {0,1,2,3,5}" +
+                            (" (3-D shapes containing 5: a fixed subset)" if tier == "quick" else ""),
+                      dtype=list(DTYPES_WIDE), axis="-ndim..ndim-1", combos=[list(map(str, c)) for c in WIDE_COMBOS],
+                      concatenate=[True, False], target_axis="every valid value, negative too"),
+            replay=lambda case: _replay_deltas(case, seed), chunk=1),
+        core.SubCheck(
             "stack", spts, lambda p: _eval_stack(p, seed, tier),
             "real Stack.apply vs explicit-loop stacking at every (shape, dtype); inner loop "
             "num_vectors x time_axis x axis x pad_mode x in_place, 2-D inputs also as 3-D with a "
             "singleton axis; non-trivial = num_vectors > 1 and a non-empty result",
             axes=dict(shape="all 2-D and 3-D shapes, extents in {0,1,2,3,5}" +
                             (" (3-D shapes containing 5: a fixed subset)" if tier == "quick" else ""),
-                      dtype=list(DTYPES),
+                      dtype=list(DTYPES + DTYPES_WIDE),
                       num_vectors=[1, 2, 3, 4], time_axis="-ndim..ndim-1", axis="-ndim..ndim-1 (!= time)",
                       pad_mode=[str(p) for p in STACK_PADS], in_place=[False, True]),
             replay=lambda case: _replay_stack(case, seed), chunk=4),
